@@ -6,7 +6,7 @@ from .. import common as K
 FORMATS = ["classic", "bytes", "extended", "extended-bytes", "xasm", "header"]
 VERS = [(1, 5), (2, 2), (2, 5), (2, 7), (3, 0), (3, 3), (3, 5), (3, 6), (3, 7), (3, 8), (3, 9), (3, 10), (3, 11), (3, 12), (3, 13)]
 RULE = ("seeded histories (length 0..12) over the public operations load_module, disassemble_file in six formats, get_opcode, "
-        "get_opcode_module, make_std_api (+ get_instructions), Bytecode iteration, marsh dumps/loads, on corpus files of all versions; "
+        "get_opcode_module, make_std_api (+ get_instructions) incl. the 'pypy' variant, Bytecode iteration, marsh dumps/loads (host and other target versions), on corpus files of all versions incl. the dropbox-encrypted ones; "
         "each history then a probe runs in its own forked process; monitor 1: digest of the probe's result and of its captured output "
         "equals the digest of the same probe run first in a fresh process, and the probe repeated equals itself; monitor 2: SHA-1 digests "
         "of every module-level table a later call reads (all opcode modules, magics tables, op_imports, std default API, fields2copy) "
@@ -21,15 +21,24 @@ def gen_op(rng, files):
         return {"op": "load_module", "file": f}
     if k < 0.52:
         return {"op": "disassemble_file", "file": f, "fmt": rng.choice(FORMATS)}
-    if k < 0.62:
+    pypy_versions = [(2, 7), (3, 5), (3, 6), (3, 7), (3, 8), (3, 9), (3, 10)]
+    if k < 0.60:
+        if rng.random() < 0.3:
+            return {"op": "get_opcode", "version": list(rng.choice(pypy_versions)), "pypy": True}
         return {"op": "get_opcode", "version": list(rng.choice(VERS)), "pypy": False}
-    if k < 0.70:
+    if k < 0.68:
+        if rng.random() < 0.3:
+            return {"op": "get_opcode_module", "version": list(rng.choice(pypy_versions)), "variant": "pypy"}
         return {"op": "get_opcode_module", "version": list(rng.choice([v for v in VERS if v >= (2, 5)]))}
     if k < 0.82:
-        v = rng.choice([(2, 7), (3, 6), (3, 8), (3, 10), (3, 11), (3, 12)])
+        if rng.random() < 0.35:
+            return {"op": "make_std_api", "version": list(rng.choice(pypy_versions)), "variant": "pypy"}
+        v = rng.choice([(2, 7), (3, 6), (3, 8), (3, 9), (3, 10), (3, 11), (3, 12)] + pypy_versions)
         return {"op": "make_std_api", "version": list(v)}
-    if k < 0.92:
+    if k < 0.90:
         return {"op": "bytecode", "file": f}
+    if k < 0.95:
+        return {"op": "marsh", "vseed": rng.randrange(10 ** 6), "target": list(rng.choice([(2, 7), (2, 5), (3, 8), (3, 6)]))}
     return {"op": "marsh", "vseed": rng.randrange(10 ** 6)}
 
 
@@ -37,7 +46,7 @@ def run(tier, scratch, t0, replay=None):
     res = K.Result("C18")
     quick = tier == "quick"
     rng = K.rng_for("C18")
-    files = [p for p in K.corpus_files() if os.path.getsize(p) < 5000 and "dropbox" not in p]
+    files = [p for p in K.corpus_files() if os.path.getsize(p) < 5000 or "dropbox" in p]
     files = rng.sample(files, min(len(files), 120 if quick else 1000))
     n = 480 if quick else 20000
     hists = []
